@@ -38,6 +38,7 @@ func (v *visLog) emit(ev map[string]any) {
 
 type stressCfg struct {
 	Engine     string `json:"engine"` // measure (default) | stream
+	RowPath    bool   `json:"rowPath"` // stream: run the queries on the row pipeline (--stream-vectorized-enabled=false)
 	Lifecycle  string `json:"lifecycle"`
 	Visibility string `json:"visibility"`
 	Millis     int    `json:"millis"`
